@@ -45,6 +45,14 @@ def firstBad (m : Pomdp) : Nat → VList → List VList → Option (Nat × Strin
     else if !(cur.all (fun e => entryValsB (closeQ tol) m prev e)) then some (h, "not_one_step_plan", levelDev m prev cur)
     else firstBad m (h + 1) cur rest
 
+/-- the verdict is DECIDED by the proved checker `consistentFrom (closeQ tol)` (`approxCheck_sound`, `checked_exec_bound`);
+    `firstBad` only names the first failing clause for the message -/
+def checkLevels (m : Pomdp) (v0 : VList) (rest : List VList) : Option (Nat × String × Rat) :=
+  if consistentFrom (closeQ tol) m v0 rest then none
+  else match firstBad m 1 v0 rest with
+    | some r => some r
+    | none => some (0, "checker_rejects", 0)
+
 def qstr (q : Rat) : String :=
   -- short decimal rendering for messages only
   let s := if q < 0 then "-" else ""
@@ -68,7 +76,7 @@ def vf : P String := do
   let vd : Verdict := { tag := s!"{comp} H{H}" }
   -- (1) the value function itself: shape, links, one-step derivation  (component = the solver)
   let vd := vd.failIf (v.isEmpty || (vlist v 0).isEmpty) s!"{comp} empty_value_function"
-  let bad := match v with | [] => none | v0 :: rest => firstBad m 1 v0 rest
+  let bad := match v with | [] => none | v0 :: rest => checkLevels m v0 rest
   let vd := match bad with
     | some (h, what, dev) => vd.failIf true s!"{comp} {what} horizon={h} dev={qstr dev}"
     | none => vd
@@ -297,7 +305,7 @@ def execBad (m : Pomdp) (v : VF) (bs : List (List Rat)) : Option String :=
 /-- verdict of a whole-run comparison -/
 def wholeRun (comp : String) (m : Pomdp) (bs : List (List Rat)) (v mv : VF) (cond : Cond) (tag : String := comp.toLower) : String :=
   let vd : Verdict := { tag := tag }
-  let bad := match v with | [] => none | v0 :: rest => firstBad m 1 v0 rest
+  let bad := match v with | [] => none | v0 :: rest => checkLevels m v0 rest
   let vd := match bad with
     | some (hh, what, dev) => vd.failIf true s!"{comp} {what} horizon={hh} dev={qstr dev}"
     | none => vd
@@ -371,7 +379,7 @@ def ls : P String := do
   let lists ← P.list (P.list P.qs); P.eof
   let vd : Verdict := { tag := "ls" }
   -- property clauses on the implementation's own level
-  let vd := match firstBad m 1 prev [level] with
+  let vd := match checkLevels m prev [level] with
     | some (_, what, dev) => vd.failIf true s!"LinearSupport {what} dev={qstr dev}"
     | none => vd
   let st0 := lsCorners m prev (List.range m.S) ⟨[], [], [], []⟩
